@@ -68,3 +68,15 @@ Theorem C02_pre_advanced_index : forall (A : Type) (l : list A) (k i : nat),
   nth_error (skipn k l) i = nth_error l (k + i).
 Proof. intros A l k i. apply pre_advanced_position. Qed.
 Print Assumptions C02_pre_advanced_index.
+
+(** REFUTED on one source kind (known finding, DESIGN.md section 6): on such a source the parallel
+    kernels report the original position [k + i] (what the concurrent iterator hands out), the
+    sequential path enumerates what is left and reports [i]: one call, two indices. *)
+From OrxPar Require Import Exec.
+Theorem C02_pre_advanced_index_refuted :
+  let c nt := mkCase true [0; 1; 2; 3; 4; 5]%Z [DNumThreads nt; DChunkSize 2; DMap (Affine 1 10)]
+                     (TFindIx (KeepGe 13)) 16%N [] 50 None false false 2 in
+  o_result (exec (c 3%N)) = ROptIx (Some (3, 13%Z)) /\     (* element 3 of the original source *)
+  o_result (exec (c 1%N)) = ROptIx (Some (1, 13%Z)).       (* element 1 of what was left *)
+Proof. vm_compute. repeat split. Qed.
+Print Assumptions C02_pre_advanced_index_refuted.
